@@ -37,6 +37,8 @@ def match(known, prop, r):
         prog = r.get("program") or ""
         if not all(x in prog for x in kf.get("program_contains", [])):
             continue
+        if kf.get("program_regex") and not re.search(kf["program_regex"], prog):
+            continue
         wit = r.get("witness") or ""
         if not all(x in wit for x in kf.get("witness_contains", [])):
             continue
